@@ -19,7 +19,8 @@ CFG = {
     'C20': dict(theorems=['Dlis.C20.rejected_leaves_objects', 'Dlis.C20.later_copy_numbers_unaffected',
                           'Dlis.C20.records_unchanged_item', 'Dlis.C20.records_unchanged_origin',
                           'Dlis.C20.history_without_rejected_calls', 'Dlis.C20.rejected_add_origin_is_visible',
-                          'Dlis.C20.rejected_call_on_foreign_set_is_visible', 'Dlis.run_invariants']),
+                          'Dlis.C20.rejected_call_on_foreign_set_is_visible', 'Dlis.C20.dataset_names_unaffected',
+                          'Dlis.C20.dataset_name_fresh', 'Dlis.run_invariants']),
 }
 RULE = ('histories of 3..14 add_* calls over 1..3 logical files: 11 object types + origins, repeated names, explicit '
         'origin references (0, 5, 128), default / shared / per-file set names, rejected calls before (non-str name) and '
@@ -113,6 +114,7 @@ def run_prop(prop, tier):
             c20_data_stream(chk, tier, tmp)
             c20_failed_write_stream(chk, tier, tmp)
             wf.refused_then_corrected('C20', tier, model, bres, chk, 30, 300)
+            dataset_name_stream(chk, model, bres, tier)
         if chk.disagreements and not chk.failures and bres.ok:
             # failing-input search: the correspondence is broken; look for a concrete history on which the
             # property itself fails, over a much larger set of histories (oracles only)
@@ -644,6 +646,60 @@ def c20_failed_write_stream(chk, tier, tmp):
         elif open(path, 'rb').read() != fresh:
             chk.fail('failed-write:changes-later-file', case, 'after the failed attempts the file differs from the one a fresh '
                                                               'specification produces')
+
+
+def dataset_name_stream(chk, model, bres, tier):
+    """sequences of add_channel calls (repeated names, explicit data set names incl. taken ones, rejected calls in
+    between): the data set name of every accepted channel vs Model/Dataset.lean"""
+    import numpy as np
+    from dliswriter import DLISFile
+    if not bres.ok:
+        return
+    R = rng('C20', 'dataset-names')
+    reqs, meta = [], []
+    for i in range(150 if tier == 'quick' else 1500):
+        df = DLISFile(set_identifier='DSN')
+        lf = df.add_logical_file()
+        lf.add_origin('O', file_set_number=1, creation_time='2020/01/01 00:00:00')
+        names = R.choice([['A', 'B'], ['A'], ['A', 'A__1', 'B']])
+        calls, outs = [], []
+        for _ in range(R.choice([2, 4, 7])):
+            nm = R.choice(names)
+            explicit = R.choice([None, None, None, 'X', nm, nm + '__1', 'A__2'])
+            reject = R.random() < 0.3
+            kw = {}
+            if explicit is not None:
+                kw['dataset_name'] = explicit
+            if reject:
+                kw.update(R.choice([{'minimum_value': 'x'}, {'cast_dtype': 'float32'}, {'properties': ['NOPE']}, {'units': 5}]))
+            st, res = call(lf.add_channel, nm, **kw)
+            calls.append((nm, explicit, st == 'ok'))
+            outs.append(('ok:' + cps(res.dataset_name)) if st == 'ok' else ('err:' + res))
+        reqs.append('dsn ' + ' '.join(f"{cps(n)} {'~' if e is None else cps(e)} {1 if ok else 0}" for n, e, ok in calls))
+        meta.append((calls, outs))
+    for (calls, outs), rep in zip(meta, model.ask(reqs)):
+        mouts = rep.split(' ')
+        case = {'calls': [f'add_channel({n!r}, dataset_name={e!r}) -> {"accepted" if ok else "rejected"}' for n, e, ok in calls]}
+        chk.case('dataset-names', nontrivial_key=('dsn', tuple(calls)), sample={'calls': case['calls'][:4], 'names': outs[:4]})
+        for k, ((n, e, ok), io, mo) in enumerate(zip(calls, outs, mouts)):
+            if ok and io != mo:
+                chk.disagree('dataset-names', dict(case, call_number=k + 1), io, mo)
+                break
+            if not ok and mo.startswith('err:') and not io.startswith('err:'):
+                chk.disagree('dataset-names', dict(case, call_number=k + 1), io, mo)
+                break
+        # oracle: the names of the accepted calls are those of the same calls without the rejected ones
+        accepted = [(n, e) for n, e, ok in calls if ok]
+        df2 = DLISFile(set_identifier='DSN')
+        lf2 = df2.add_logical_file()
+        lf2.add_origin('O', file_set_number=1, creation_time='2020/01/01 00:00:00')
+        fresh = []
+        for n, e in accepted:
+            st, res = call(lf2.add_channel, n, **({'dataset_name': e} if e is not None else {}))
+            fresh.append(('ok:' + cps(res.dataset_name)) if st == 'ok' else ('err:' + res))
+        got = [io for (n, e, ok), io in zip(calls, outs) if ok]
+        if got != fresh:
+            chk.fail('rejected:dataset-names', case, f'data set names {got} with the rejected calls, {fresh} without them')
 
 
 def decoded_inventory_full(recs):
